@@ -24,6 +24,7 @@ struct verif_in {
 	int conf_mode;         /* what state_config finds: 0 (3-parity ...) or 1 (z-parity) */
 	int has_lockfile, skip_lock, lock_ret, lock_errno;
 	int diff_ret;
+	int operation, auditonly, has_import_ts, has_import_content, dispatch_ret;
 	int need_write_after_scan, need_write_after_sync, force_content_write, kill_after_sync, sync_ret, has_run, run_ret, skip_self;
 };
 VERIF_DECLARE_IN
@@ -31,7 +32,7 @@ VERIF_DECLARE_IN
 static unsigned g_ord;
 static unsigned g_when_init, g_when_config, g_when_mode, g_when_lock, g_when_read, g_when_scan, g_when_refresh, g_when_sync, g_when_write;
 static int g_mode_arg = -1, g_mode_calls;
-static int g_refusal_due, g_exit_calls, g_expected_code;
+static int g_refusal_due, g_exit_calls, g_expected_code, g_when_check_done;
 static struct snapraid_state *g_state_seen;
 
 static void verif_exit(int code)
@@ -176,6 +177,107 @@ void h_main_diff(void)
 	region_main_diff(&ST);
 	VERIF_ASSERT(!g_refusal_due, "diff ends with status 2 when state_diff reports differences");
 	VERIF_ASSERT(g_when_read != 0 && g_when_diff > g_when_read && g_when_write == 0 && g_when_sync == 0, "diff reads the content, compares, and neither syncs nor writes");
+	VERIF_CANARY();
+}
+
+
+/* ---------------------------------------------------------------- the command dispatch of main() (C12: who may modify what) */
+enum { F_READ = 1, F_DIFF = 2, F_SCAN = 4, F_SYNC = 8, F_WRITE = 16, F_DRY = 32, F_REHASH = 64, F_SCRUB = 128, F_TOUCH = 256, F_DEVICE = 512,
+	F_STATUS = 1024, F_DUP = 2048, F_LIST = 4096, F_POOL = 8192, F_SEARCH = 16384, F_IMPORT = 32768, F_CHECK = 65536, F_FIX = 131072, F_FILTER = 262144 };
+static unsigned g_called;
+#define MAYBE_DIRTY(st) do { if (IN.need_write_after_sync) (st)->need_write = 1; } while (0) /* any callee may leave the state marked as changed */
+static void d_read(struct snapraid_state *st) { g_called |= F_READ; MAYBE_DIRTY(st); }
+static int d_diff(struct snapraid_state *st) { MAYBE_DIRTY(st); g_called |= F_DIFF; return IN.dispatch_ret; }
+static void d_scan(struct snapraid_state *st) { g_called |= F_SCAN; if (IN.need_write_after_scan) st->need_write = 1; }
+static void d_refresh(struct snapraid_state *st) { (void)st; }
+static int d_sync(struct snapraid_state *st, block_off_t a, block_off_t b) { (void)a; (void)b; g_called |= F_SYNC; if (IN.need_write_after_sync) st->need_write = 1; return IN.dispatch_ret; }
+static void d_write(struct snapraid_state *st) { (void)st; g_called |= F_WRITE; }
+static void d_skip(struct snapraid_state *st) { (void)st; }
+static void d_filter(struct snapraid_state *st, tommy_list *a, tommy_list *b, int c, int d) { MAYBE_DIRTY(st); (void)a; (void)b; (void)c; (void)d; g_called |= F_FILTER; }
+static void d_dry(struct snapraid_state *st, block_off_t a, block_off_t b) { MAYBE_DIRTY(st); (void)a; (void)b; g_called |= F_DRY; }
+static void d_rehash(struct snapraid_state *st) { g_called |= F_REHASH; if (IN.need_write_after_sync) st->need_write = 1; }
+static int d_scrub(struct snapraid_state *st, int plan, int olderthan) { (void)plan; (void)olderthan; g_called |= F_SCRUB; if (IN.need_write_after_sync) st->need_write = 1; return IN.dispatch_ret; }
+static void d_touch(struct snapraid_state *st) { MAYBE_DIRTY(st); g_called |= F_TOUCH; }
+static void d_device(struct snapraid_state *st, int op, tommy_list *l) { MAYBE_DIRTY(st); (void)op; (void)l; g_called |= F_DEVICE; }
+static void d_status(struct snapraid_state *st) { MAYBE_DIRTY(st); g_called |= F_STATUS; }
+static void d_dup(struct snapraid_state *st) { MAYBE_DIRTY(st); g_called |= F_DUP; }
+static void d_list(struct snapraid_state *st) { MAYBE_DIRTY(st); g_called |= F_LIST; }
+static void d_pool(struct snapraid_state *st) { MAYBE_DIRTY(st); g_called |= F_POOL; }
+static void d_search(struct snapraid_state *st, const char *dir) { MAYBE_DIRTY(st); (void)dir; g_called |= F_SEARCH; }
+static void d_import(struct snapraid_state *st, const char *dir) { MAYBE_DIRTY(st); (void)dir; g_called |= F_IMPORT; }
+static void d_search_array(struct snapraid_state *st) { MAYBE_DIRTY(st); g_called |= F_SEARCH; }
+static int d_check(struct snapraid_state *st, int fix, block_off_t a, block_off_t b) { MAYBE_DIRTY(st); (void)a; (void)b; g_called |= fix ? F_FIX : F_CHECK; return IN.dispatch_ret; }
+
+#define exit verif_exit
+#define state_read d_read
+#define state_diff d_diff
+#define state_scan d_scan
+#define state_refresh d_refresh
+#define state_sync d_sync
+#define state_write d_write
+#define state_skip d_skip
+#define state_filter d_filter
+#define state_dry d_dry
+#define state_rehash d_rehash
+#define state_scrub d_scrub
+#define state_touch d_touch
+#define state_device d_device
+#define state_status d_status
+#define state_dup d_dup
+#define state_list d_list
+#define state_pool d_pool
+#define state_search d_search
+#define state_import d_import
+#define state_search_array d_search_array
+#define state_check d_check
+#define system v_system
+#define sleep v_sleep
+#include "region_main_ops.c"
+#include "region_main_dispatch.c"
+#undef exit
+
+void h_main_dispatch(void)
+{
+	unsigned writers = F_SYNC | F_WRITE | F_REHASH | F_SCRUB | F_TOUCH | F_FIX | F_POOL;
+	int op;
+	VERIF_INPUTS();
+	op = IN.operation;
+	VERIF_ASSUME(op >= OPERATION_DIFF && op <= OPERATION_SMART);
+	OPT.kill_after_sync = IN.kill_after_sync != 0;
+	OPT.skip_self = 1;
+	ST.opt.force_content_write = IN.force_content_write != 0;
+	ST.opt.auditonly = IN.auditonly != 0;
+	ST.opt.force_nocopy = 0;
+	ST.need_write = 0;
+	g_called = 0;
+	g_expected_code = 0;
+	/* a failing command ends with a failing status (diff: 2 on differences) */
+	g_refusal_due = (IN.dispatch_ret != 0 && (op == OPERATION_SYNC || op == OPERATION_SCRUB || op == OPERATION_CHECK || op == OPERATION_FIX))
+		|| (IN.dispatch_ret > 0 && op == OPERATION_DIFF) || (op == OPERATION_SYNC && IN.has_run && IN.run_ret != 0);
+	g_when_check_done = 0;
+
+	region_main_dispatch(&ST, &OPT, op, IN.has_run ? "true" : 0, IN.has_import_ts ? "dir" : 0, IN.has_import_content ? "dir" : 0);
+
+	/* what each command is allowed to start (the callees are judged by their own units) */
+	if (op == OPERATION_STATUS || op == OPERATION_DIFF || op == OPERATION_LIST || op == OPERATION_DUP || op == OPERATION_CHECK
+		|| op == OPERATION_DEVICES || op == OPERATION_SMART || op == OPERATION_SPINUP || op == OPERATION_SPINDOWN || op == OPERATION_DRY || op == OPERATION_READ)
+		VERIF_ASSERT((g_called & writers) == 0, "status, diff, list, dup, check, dry and the device commands start nothing that writes data, parity or content");
+	if (op == OPERATION_SCRUB)
+		VERIF_ASSERT((g_called & (writers & ~(F_SCRUB | F_WRITE))) == 0, "scrub may only scrub and save the content file");
+	if (op == OPERATION_SYNC)
+		VERIF_ASSERT((g_called & (writers & ~(F_SYNC | F_WRITE))) == 0, "sync may only sync and save the content file");
+	if (op == OPERATION_FIX)
+		VERIF_ASSERT((g_called & (writers & ~F_FIX)) == 0 && (g_called & F_FIX), "fix repairs and never saves the content file");
+	if (op == OPERATION_CHECK)
+		VERIF_ASSERT((g_called & F_CHECK) && !(g_called & F_FIX), "check runs the verification without the fix flag");
+	if (op == OPERATION_POOL)
+		VERIF_ASSERT((g_called & (writers & ~F_POOL)) == 0, "pool only rebuilds the pool directory");
+	if (op == OPERATION_TOUCH)
+		VERIF_ASSERT((g_called & (writers & ~(F_TOUCH | F_WRITE))) == 0, "touch only touches and saves the content file");
+	if (op == OPERATION_REHASH)
+		VERIF_ASSERT((g_called & (writers & ~(F_REHASH | F_WRITE))) == 0, "rehash only schedules the migration and saves the content file");
+	if ((op == OPERATION_CHECK || op == OPERATION_FIX) && IN.auditonly)
+		VERIF_ASSERT(!(g_called & (F_SEARCH | F_IMPORT)), "an audit-only check reads no other file than the ones it verifies");
 	VERIF_CANARY();
 }
 
